@@ -253,6 +253,12 @@ def parse_kani_output(out):
             r.status = "success"
         elif "VERIFICATION:- FAILED" in txt:
             r.status = "failed"
+            if "0 of " in txt and re.search(r"\*\* 0 of \d+ failed", txt) and "Failed Checks:" not in txt:
+                # CBMC crashed / ran out of memory / was killed: nothing was refuted
+                r.status = "undecided"
+            if "out of memory" in txt or "CBMC failed" in txt or "CBMC timed out" in txt or "timed out" in txt.lower():
+                if "Failed Checks:" not in txt:
+                    r.status = "undecided"
         else:
             r.status = "undecided"
         for m in re.finditer(r"Failed Checks: (.*)\n\s*File: \"([^\"]*)\", line (\d+), in (\S+)", txt):
